@@ -92,6 +92,9 @@ Add64(t, n) ==
         a3 == t[4] + (a2 \div M16)
     IN  <<a0 % M16, a1 % M16, a2 % M16, a3 % M16>>
 
+\* a natural n < 2^31 as a 64-bit counter
+Nat64(n) == <<n % M16, (n \div M16) % M16, 0, 0>>
+
 Low32Of64(t) == <<t[2], t[1]>>
 \* t >= 16 ?
 Ge16_64(t) == t[2] > 0 \/ t[3] > 0 \/ t[4] > 0 \/ t[1] >= 16
